@@ -281,10 +281,12 @@ func runCase(r *vh.Run, sp caseSpec) {
 
 	outs := make([]reqOutcome, len(ids))
 	var wg sync.WaitGroup
+	var answered atomic.Int64
 	for k, id := range ids {
 		wg.Add(1)
 		go func(k int, id string) {
 			defer wg.Done()
+			defer answered.Add(1)
 			c := conns[k%sessPerCase]
 			ex := c.Post(ctx, reqBody(id, sp.Method), kit.PostOpts{WantID: kit.CanonID(json.RawMessage(fmt.Sprintf("%q", id))), Wait: 30 * time.Second})
 			o := reqOutcome{ID: id, Sess: k % sessPerCase, Frames: ex.Frames, Timed: ex.TimedOut}
@@ -295,11 +297,20 @@ func runCase(r *vh.Run, sp caseSpec) {
 		}(k, id)
 	}
 	if cs.gate != "" {
-		got := kit.G.AwaitWaiters(cs.gate, len(ids), 20*time.Second)
-		r.Max("requests_held_in_one_middleware", int64(got))
-		if got < len(ids) {
-			r.Inconclusive(fmt.Sprintf("%s: only %d of %d requests reached the gated middleware m%d within 20 s", label, got, len(ids), cs.gateAt))
+		// hold the requests together: wait until every request either waits at the gate or has been answered
+		// (a request that never reaches the gated stage must not stall the run; its trace tells the story)
+		got, deadline := 0, time.Now().Add(20*time.Second)
+		for {
+			got = kit.G.AwaitWaiters(cs.gate, len(ids), 20*time.Millisecond)
+			if got+int(answered.Load()) >= len(ids) {
+				break
+			}
+			if time.Now().After(deadline) {
+				r.Inconclusive(fmt.Sprintf("%s: only %d of %d requests reached the gated middleware m%d within 20 s, %d answered", label, got, len(ids), cs.gateAt, answered.Load()))
+				break
+			}
 		}
+		r.Max("requests_held_in_one_middleware", int64(got))
 		kit.G.Open(cs.gate)
 	}
 	wg.Wait()
